@@ -15,6 +15,33 @@ if TYPE_CHECKING:
 logger = logging.getLogger(__name__)
 
 
+def _sweeten(dumper: 'Dumper', class_: Type, node: Node) -> None:
+    """Applies the user's _yatiml_sweeten() function(s), if any.
+
+    Sweetening is done for the registered base classes first, then
+    for the derived classes, down the hierarchy to the class we're
+    representing, like savorizing is done when loading.
+
+    Args:
+        dumper: The dumper that is dumping this object.
+        class_: The type of the object to be dumped.
+        node: The node to sweeten.
+    """
+    for base_class in class_.__bases__:
+        if base_class in dumper.yaml_representers:
+            _sweeten(dumper, base_class, node)
+    if '_yatiml_sweeten' in class_.__dict__:
+        logger.debug('Sweetening {} for class {}'.format(
+            node, class_.__name__))
+        class_._yatiml_sweeten(node)
+        if not isinstance(node.yaml_node, yaml.Node):
+            raise RuntimeError(
+                    ('After sweetening an object of class {},'
+                     ' node.yaml_node is not a yaml.Node. Please'
+                     ' check your _yatiml_sweeten() function.'
+                     ).format(class_.__name__))
+
+
 class Representer:
     """A yaml Representer class for user-defined types.
 
@@ -79,8 +106,8 @@ class Representer:
 
         # sweeten
         cnode = Node(represented)
-        self.__sweeten(dumper, self.class_, cnode)
-        # __sweeten() checks this, so can cast safely
+        _sweeten(dumper, self.class_, cnode)
+        # _sweeten() checks this, so can cast safely
         represented = cast(yaml.Node, cnode.yaml_node)
         if alias_key is not None:
             # sweetening may have replaced the node
@@ -88,32 +115,6 @@ class Representer:
 
         logger.debug('End representing {}'.format(data))
         return represented
-
-    def __sweeten(self, dumper: 'Dumper', class_: Type, node: Node) -> None:
-        """Applies the user's _yatiml_sweeten() function(s), if any.
-
-        Sweetening is done for the base classes first, then for the
-        derived classes, down the hierarchy to the class we're
-        constructing.
-
-        Args:
-            dumper: The dumper that is dumping this object.
-            class_: The type of the object to be dumped.
-            represented_object: The object to be dumped.
-        """
-        for base_class in class_.__bases__:
-            if base_class in dumper.yaml_representers:
-                self.__sweeten(dumper, base_class, node)
-        if '_yatiml_sweeten' in class_.__dict__:
-            logger.debug('Sweetening {} for class {}'.format(
-                node, class_.__name__))
-            class_._yatiml_sweeten(node)
-            if not isinstance(node.yaml_node, yaml.Node):
-                raise RuntimeError(
-                        ('After sweetening an object of class {},'
-                         ' node.yaml_node is not a yaml.Node. Please'
-                         ' check your _yatiml_sweeten() function.'
-                         ).format(class_.__name__))
 
 
 class EnumRepresenter:
@@ -156,9 +157,8 @@ class EnumRepresenter:
 
         # sweeten
         snode = Node(represented)
-        if hasattr(self.class_, '_yatiml_sweeten'):
-            self.class_._yatiml_sweeten(snode)
-            represented = snode.yaml_node
+        _sweeten(dumper, self.class_, snode)
+        represented = snode.yaml_node
 
         logger.debug('End representing {}'.format(data))
         return represented
@@ -203,18 +203,11 @@ class UserStringRepresenter:
 
         # sweeten
         snode = Node(represented)
-        if hasattr(self.class_, '_yatiml_sweeten'):
-            self.class_._yatiml_sweeten(snode)
-            if not isinstance(snode.yaml_node, yaml.Node):
-                raise RuntimeError(
-                        ('After sweetening an object of class {},'
-                         ' node.yaml_node is not a yaml.Node. Please'
-                         ' check your _yatiml_sweeten() function.'
-                         ).format(self.class_.__name__))
-            represented = snode.yaml_node
-            if alias_key is not None:
-                # sweetening may have replaced the node
-                dumper.represented_objects[alias_key] = represented
+        _sweeten(dumper, self.class_, snode)
+        represented = snode.yaml_node
+        if alias_key is not None:
+            # sweetening may have replaced the node
+            dumper.represented_objects[alias_key] = represented
 
         logger.debug('End representing {}'.format(data))
         return represented
